@@ -205,6 +205,10 @@ pub fn piece(rng: &mut Rng) -> (&'static str, Vec<u8>) {
                     1 => rng.pick(&["27", "13", "9", "127", "57376", "57398", "57399", "57344", "63743", "63744", "55296",
                         "57343", "1114111", "1114112", "4294967295", "4294967296", "4294967393"]).to_string(),
                     2 => num(rng),
+                    // both ends of the private-use block the kitty protocol numbers its functional keys in, one by one
+                    // (57344..=63743: every code next to 57344, the F13.. block at 57376..=57398, 63743 / 63744)
+                    3 => rng.range(57340, 57460).to_string(),
+                    4 => if rng.chance(1, 2) { rng.range(63730, 63750).to_string() } else { rng.range(55290, 57350).to_string() },
                     _ => rng.range(32, 60000).to_string(),
                 }
             };
